@@ -60,7 +60,16 @@ func (c *wsConn) Read(b []byte) (int, error) {
 		return n, nil
 	}
 
-	data, err := wsutil.ReadClientBinary(wsControlRW{c})
+	var data []byte
+	var err error
+
+	// a binary message without payload hands the caller nothing: it is passed over rather than
+	// answered with "no bytes, no error" (io.Reader discourages that, and the protocol layer's
+	// buffered reader gives the connection up after a hundred such reads in a row)
+	for len(data) == 0 && err == nil {
+		data, err = wsutil.ReadClientBinary(wsControlRW{c})
+	}
+
 	n := copy(b, data)
 	if n < len(data) {
 		c.rem = data[n:]
